@@ -7,6 +7,7 @@ import (
 
 	"github.com/ossrs/go-oryx-lib/avc"
 	"verifharness/ld"
+	"verifharness/rp"
 )
 
 // C12: AVC configuration records, samples and NAL units against spec/avc/Avc.tla.
@@ -64,21 +65,13 @@ func sameNals(want []avcNal, got []*avc.NALU, seed int) error {
 	return nil
 }
 
-func firstDiff(a, b []byte) string {
-	n := len(a)
-	if len(b) < n {
-		n = len(b)
-	}
-	for i := 0; i < n; i++ {
-		if a[i] != b[i] {
-			return fmt.Sprintf("len %d vs %d, first difference at offset %d: %#02x vs %#02x", len(a), len(b), i, a[i], b[i])
-		}
-	}
-	return fmt.Sprintf("len %d vs %d, common prefix equal", len(a), len(b))
-}
+var registry = map[string]rp.Replayer{}
+var batchRegistry = map[string]rp.Batch{}
+
+func main() { rp.Main(registry, batchRegistry) }
 
 func init() {
-	registry["avc"] = func(c *Ctx, i int, raw json.RawMessage) Result {
+	registry["avc"] = func(c *rp.Ctx, i int, raw json.RawMessage) rp.Result {
 		var cs avcCase
 		if err := json.Unmarshal(raw, &cs); err != nil {
 			panic(err)
@@ -101,25 +94,25 @@ func init() {
 			// (1) records written by the specification (the independent conformant writer) are read back
 			rd := avc.NewAVCDecoderConfigurationRecord()
 			if err := rd.UnmarshalBinary(want); err != nil {
-				return fail(i, "unmarshal of the specification's record failed: %v", err)
+				return rp.Fail(i, "unmarshal of the specification's record failed: %v", err)
 			}
 			if int(rd.AVCProfileIndication) != r.Profile || int(rd.AVCLevelIndication) != r.Level || int(rd.LengthSizeMinusOne) != r.Lsm1 {
-				return fail(i, "record fields profile=%d level=%d lsm1=%d, want %d %d %d", rd.AVCProfileIndication, rd.AVCLevelIndication, rd.LengthSizeMinusOne, r.Profile, r.Level, r.Lsm1)
+				return rp.Fail(i, "record fields profile=%d level=%d lsm1=%d, want %d %d %d", rd.AVCProfileIndication, rd.AVCLevelIndication, rd.LengthSizeMinusOne, r.Profile, r.Level, r.Lsm1)
 			}
 			if err := sameNals(r.Sps, rd.SequenceParameterSetNALUnits, c.Seed); err != nil {
-				return fail(i, "SPS: %v", err)
+				return rp.Fail(i, "SPS: %v", err)
 			}
 			if err := sameNals(r.Pps, rd.PictureParameterSetNALUnits, c.Seed); err != nil {
-				return fail(i, "PPS: %v", err)
+				return rp.Fail(i, "PPS: %v", err)
 			}
 			// (2) marshalling the unmarshalled canonical encoding reproduces it (also covers the
 			// compatibility byte, which has no exported accessor)
 			again, err := rd.MarshalBinary()
 			if err != nil {
-				return fail(i, "re-marshal failed: %v", err)
+				return rp.Fail(i, "re-marshal failed: %v", err)
 			}
 			if !bytes.Equal(again, want) {
-				return Result{OK: false, What: "marshal(unmarshal(canonical record)) differs from the ISO layout: " + firstDiff(again, want), Deviation: classifyRecord(again, want)}
+				return rp.Result{OK: false, What: "marshal(unmarshal(canonical record)) differs from the ISO layout: " + rp.FirstDiff(again, want), Deviation: classifyRecord(again, want)}
 			}
 			// (3) a record built through the API marshals to the ISO layout (profile compatibility
 			// is unexported: only checked when 0)
@@ -136,13 +129,13 @@ func init() {
 				}
 				got, err := w.MarshalBinary()
 				if err != nil {
-					return fail(i, "marshal failed: %v", err)
+					return rp.Fail(i, "marshal failed: %v", err)
 				}
 				if !bytes.Equal(got, want) {
-					return Result{OK: false, What: "marshalled record differs from the ISO layout: " + firstDiff(got, want), Deviation: classifyRecord(got, want)}
+					return rp.Result{OK: false, What: "marshalled record differs from the ISO layout: " + rp.FirstDiff(got, want), Deviation: classifyRecord(got, want)}
 				}
 			}
-			return Result{OK: true}
+			return rp.Result{OK: true}
 
 		case "sample":
 			var s struct {
@@ -158,23 +151,23 @@ func init() {
 			}
 			got, err := w.MarshalBinary()
 			if err != nil {
-				return fail(i, "marshal failed: %v", err)
+				return rp.Fail(i, "marshal failed: %v", err)
 			}
 			if !bytes.Equal(got, want) {
-				return fail(i, "marshalled sample differs from the layout: %s", firstDiff(got, want))
+				return rp.Fail(i, "marshalled sample differs from the layout: %s", rp.FirstDiff(got, want))
 			}
 			rd := avc.NewAVCSample(uint8(s.Lsm1))
 			if err := rd.UnmarshalBinary(want); err != nil {
-				return fail(i, "unmarshal failed: %v", err)
+				return rp.Fail(i, "unmarshal failed: %v", err)
 			}
 			if err := sameNals(s.Nals, rd.NALUs, c.Seed); err != nil {
-				return fail(i, "sample: %v", err)
+				return rp.Fail(i, "sample: %v", err)
 			}
 			again, err := rd.MarshalBinary()
 			if err != nil || !bytes.Equal(again, want) {
-				return fail(i, "re-marshalled sample differs: %v %s", err, firstDiff(again, want))
+				return rp.Fail(i, "re-marshalled sample differs: %v %s", err, rp.FirstDiff(again, want))
 			}
-			return Result{OK: true}
+			return rp.Result{OK: true}
 
 		case "nalu":
 			var n avcNal
@@ -184,22 +177,22 @@ func init() {
 			v := n.build(c.Seed)
 			got, err := v.MarshalBinary()
 			if err != nil {
-				return fail(i, "marshal failed: %v", err)
+				return rp.Fail(i, "marshal failed: %v", err)
 			}
 			if !bytes.Equal(got, want) {
-				return fail(i, "marshalled NAL unit differs: %s", firstDiff(got, want))
+				return rp.Fail(i, "marshalled NAL unit differs: %s", rp.FirstDiff(got, want))
 			}
 			if v.Size() != len(want) {
-				return fail(i, "Size()=%d, want %d", v.Size(), len(want))
+				return rp.Fail(i, "Size()=%d, want %d", v.Size(), len(want))
 			}
 			rd := avc.NewNALU()
 			if err := rd.UnmarshalBinary(want); err != nil {
-				return fail(i, "unmarshal failed: %v", err)
+				return rp.Fail(i, "unmarshal failed: %v", err)
 			}
 			if err := n.same(rd, c.Seed); err != nil {
-				return fail(i, "%v", err)
+				return rp.Fail(i, "%v", err)
 			}
-			return Result{OK: true}
+			return rp.Result{OK: true}
 
 		case "hdrbyte":
 			var hb struct{ B, N, ID int }
@@ -208,27 +201,27 @@ func init() {
 			}
 			rd := avc.NewNALU()
 			if err := rd.UnmarshalBinary(want); err != nil {
-				return fail(i, "unmarshal failed: %v", err)
+				return rp.Fail(i, "unmarshal failed: %v", err)
 			}
 			if int(rd.NALRefIDC) != cs.Exp.Nri || int(rd.NALUType) != cs.Exp.T {
-				return fail(i, "header byte %#02x decoded as nri=%d type=%d, want %d %d", hb.B, rd.NALRefIDC, rd.NALUType, cs.Exp.Nri, cs.Exp.T)
+				return rp.Fail(i, "header byte %#02x decoded as nri=%d type=%d, want %d %d", hb.B, rd.NALRefIDC, rd.NALUType, cs.Exp.Nri, cs.Exp.T)
 			}
 			if !bytes.Equal(rd.Data, want[1:]) {
-				return fail(i, "payload differs")
+				return rp.Fail(i, "payload differs")
 			}
 			h := avc.NewNALUHeader()
 			if err := h.UnmarshalBinary(want[:1]); err != nil || int(h.NALRefIDC) != cs.Exp.Nri || int(h.NALUType) != cs.Exp.T {
-				return fail(i, "NALUHeader: %v nri=%d type=%d", err, h.NALRefIDC, h.NALUType)
+				return rp.Fail(i, "NALUHeader: %v nri=%d type=%d", err, h.NALRefIDC, h.NALUType)
 			}
 			_ = h.String()
 			_ = rd.String()
 			if cs.Canonical {
 				again, err := rd.MarshalBinary()
 				if err != nil || !bytes.Equal(again, want) {
-					return fail(i, "re-marshal of canonical NAL unit differs: %v %s", err, firstDiff(again, want))
+					return rp.Fail(i, "re-marshal of canonical NAL unit differs: %v %s", err, rp.FirstDiff(again, want))
 				}
 			}
-			return Result{OK: true}
+			return rp.Result{OK: true}
 		}
 		panic("unknown kind " + cs.Kind)
 	}
